@@ -52,7 +52,8 @@ fn all_vals(rs: Vec<Ref>) -> Result<Vec<Dyn>, Ref> {
 
 pub fn eval(ty: &Ty, n: &Node) -> Ref {
     // tags: only the enum `!Variant` notation is modelled; any other tagged node is unspecified
-    if n.tag.is_some() && !matches!(ty, Ty::Enum { .. }) {
+    // (an Option passes the node on to its payload type: `!U` for Option<E> is Some(U), not a null)
+    if n.tag.is_some() && !matches!(ty, Ty::Enum { .. } | Ty::Option(_)) {
         return Ref::Unspec;
     }
     match ty {
